@@ -185,8 +185,28 @@ def x3(ctx):
             INV[h] = ("fail",)
             continue
         arg = u["args"][1]
-        if tag(arg) == "payload" and tag(arg[1]) == "chunksnext" and arg[1][1] == D:
-            INV[h] = ("chunks", arg[1])
+        if tag(arg) == "payload" and tag(arg[1]) == "chunksnext":
+            # chunks over data or over a sub-slice data[s..e]: the loop feeds [s, e) in order; chunks_exact leaves a partial last chunk out, so its
+            # slice must be a whole number of chunks (its length a product with the chunk size as a factor)
+            cn = arg[1]
+            sbx = slice_bounds(cn[1], D, TOTAL)
+            if sbx is None:
+                problems.append(("update-arg", ev_loc(ctx, u), "the loop chunks something that is not a sub-slice of data: %s" % short(cn[1], 80)))
+                INV[h] = ("fail",)
+                continue
+            s0, e0 = N(sbx[0]), N(sbx[1])
+            if len(cn) > 3 and cn[3] == "exact":
+                ln = sub(e0, s0)
+                n_ = cn[2]
+                whole = tag(ln) == "mul" and (term_eq(ln[1], n_) or term_eq(ln[2], n_))
+                if isinstance(ln, Lin) and len(ln.m) == 1 and ln.c == 0:
+                    (a_, c_), = ln.m.items()
+                    whole = c_ == 1 and tag(a_) == "mul" and (term_eq(a_[1], n_) or term_eq(a_[2], n_))
+                if not whole:
+                    problems.append(("chunks-exact-tail", ev_loc(ctx, u), "chunks_exact(%s) over a slice of length %s may leave a partial chunk unfed" % (short(n_, 30), short(ln, 60))))
+                    INV[h] = ("fail",)
+                    continue
+            INV[h] = ("chunks", cn, s0, e0)
             continue
         sb = slice_bounds(arg, D, TOTAL)
         if sb is None:
@@ -282,8 +302,8 @@ def x3(ctx):
                     pin = I
                 elif inv[0] == "chunks":
                     for p, pp in cands:
-                        if not eq(facts_edge(p, bb), pp, const(0)):
-                            problems.append(("loop-entry", b.loc(bb), "a chunks() loop starts at position %s, not 0" % short(N(pp), 50)))
+                        if not eq(facts_edge(p, bb), pp, inv[2]):
+                            problems.append(("loop-entry", b.loc(bb), "a chunks() loop over data[%s..] starts at position %s" % (short(inv[2], 30), short(N(pp), 50))))
                     pin = ("chunks-pos", inv[1])
         pos = pin
         for e in sorted([u for u in updates if u["bb"] == bb], key=lambda u: u["seq"]):
@@ -317,7 +337,7 @@ def x3(ctx):
             if bb in loops[h] and INV.get(h) and INV[h][0] == "chunks":
                 c = res.conds.get(bb)
                 if tag(c) == "discr" and c[1] == INV[h][1]:
-                    pos_out[bb] = TOT
+                    pos_out[bb] = INV[h][3]
     for key, loc, what in problems:
         yield Ob(key_of("C19-X3", b.path, key), False, what, loc)
     if not problems:
